@@ -215,6 +215,17 @@ def _c02_17(names):
             v = _copy17.deepcopy(x); v['name'] = 'C02_' + x['name']; out.append(v)
     return out
 UNITS += _c02_17(['subscribe_check_ready', 'co_await_suspend', 'co_sync', 'resume_chain_set_ready'])
+# "The shared state stays alive until it has been resolved" also rests on the promise side: a promise that is overwritten by move-assignment
+# must resolve (drop) the future it owned - otherwise the abandoned shared state keeps its tracer reference for ever and its awaiters hang
+# (seeded change C17-5).  promise<int>::operator=(promise&&) and future::resolve() are under contract in C01 / C02; re-run here.
+def _c01_17(names):
+    s = _ilu17.spec_from_file_location('c17_c01', _os17.path.join(_os17.path.dirname(_os17.path.dirname(_os17.path.abspath(__file__))), 'C01', 'units.py')); m = _ilu17.module_from_spec(s); s.loader.exec_module(m)
+    out = []
+    for x in m.UNITS:
+        if x['name'] in names:
+            v = _copy17.deepcopy(x); v['name'] = 'C01_' + x['name']; out.append(v)
+    return out
+UNITS += _c01_17(['move_assign', 'dtor']) + _c02_17(['fu_resolve'])
 
 META = dict(
     level='proof',
